@@ -102,7 +102,10 @@ def run(tape, scenario):
                 self.devices.append(dev)
             self.rw = {ln["term"] for ln in glinks if ln["sm"] == "out"}
             self.used = {ln["term"] for ln in glinks}
-            self.sg = SyncGroup(ec, self.devices)
+            # (applications derive their own group classes from SyncGroup)
+            cls = type("PlantGroup", (SyncGroup,), {"__doc__": "a user's group class"}) \
+                if tape.chance("c30/user-subclass-of-syncgroup", 30) else SyncGroup
+            self.sg = cls(ec, self.devices)
             self.orig_update = self.sg.update_devices
             self.sg.update_devices = self.update_devices
 
